@@ -378,10 +378,12 @@ def block_limit_rule(ctx, rule):
     # the size local is whatever is handed to BlockDecoder::init as its byte size (named block_length today)
     inits_ = call_sites(f, lambda p, c: p.endswith("BlockDecoder::init"))
     BL = show(inits_[0].expr[2][3]) if inits_ and re.match(r"^\w+(~\d+)?$", show(inits_[0].expr[2][3])) else "block_length"
-    defs = [(e, bb) for (proj, e, bb) in sl.var_defs().get(BL, []) if proj == ""]
+    defs = value_defs(sl, BL)
     if len(defs) < 2:
         raise model.AnchorMissing("push_to_block2: %d definitions of block_length" % len(defs))
+    BLX = set([BL] + ([show(sl.expand(inits_[0].expr[2][3]), 200)] if inits_ else []))
     for e, bb in defs:
+        e = sl.expand(e)
         txt = show(e, 200)
         if "partition::block_length" in txt:
             rule.ok("push_to_block2 block_length (partition arm)", "partition::block_length(..) bytes", loc(f.sp))
@@ -393,7 +395,9 @@ def block_limit_rule(ctx, rule):
             ex = ex[2]
         if ex[0] == "bin" and ex[1].replace("WithOverflow", "").startswith("Mul"):
             facs = [re.sub(r" as \w+|[()]", "", show(ex[2])), re.sub(r" as \w+|[()]", "", show(ex[3]))]
-        if sorted(facs) == sorted(["source_block_length", "oti.encoding_symbol_length"]):
+        # symbols (the payload id's source block length) x symbol length, under whatever local names
+        if len(facs) == 2 and any("source_block_length" in x_ for x_ in facs) and any(re.search(r"(^|\.)encoding_symbol_length$", x_) for x_ in facs) and \
+                not all("source_block_length" in x_ for x_ in facs):
             rule.ok(key, "source_block_length * encoding_symbol_length", loc(f.sp))
         else:
             rule.violation(key, "the size of a block announced by the payload id is taken as %s: the allocation limit compares it (and accumulates it) with "
@@ -411,8 +415,9 @@ def block_limit_rule(ctx, rule):
             continue
         terms = dict(key_[0])
         names = set(terms)
-        if names == {"self.max_size_allocated", "self.total_allocated_blocks_size", BL} and key_[1] == 0 and \
-                terms["self.total_allocated_blocks_size"] == terms[BL] == -terms["self.max_size_allocated"]:
+        bl_ = (names - {"self.max_size_allocated", "self.total_allocated_blocks_size"})
+        if len(names) == 3 and len(bl_) == 1 and (bl_ & BLX) and {"self.max_size_allocated", "self.total_allocated_blocks_size"} <= names and key_[1] == 0 and \
+                terms["self.total_allocated_blocks_size"] == terms[list(bl_)[0]] == -terms["self.max_size_allocated"]:
             # (lhs - rhs) = orient * key ; the test must be `max < total + BL` (lt, true) or its negation `total + BL <= max` (le, true)
             d_max = orient_ * terms["self.max_size_allocated"]     # coefficient of max in (lhs - rhs)
             if (a_[0] == "lt" and d_max > 0) or (a_[0] == "le" and d_max < 0):
